@@ -217,6 +217,9 @@ namespace sim
 	void http_proxy::on_domain_lookup(boost::system::error_code const& ec
 		, const asio::ip::tcp::resolver::results_type ips)
 	{
+		// the client this lookup was made for is gone
+		if (ec == asio::error::operation_aborted) return;
+
 		m_resolving = false;
 		if (ec || ips.empty())
 		{
@@ -345,6 +348,7 @@ namespace sim
 		m_num_server_out_bytes = 0;
 		m_num_in_bytes = 0;
 		m_resolving = false;
+		m_resolver.cancel();
 
 		error_code err;
 		m_client_connection.close(err);
